@@ -71,6 +71,11 @@ CHECKS = {
    note='Expression level only so far: unary/binary operators, shifts, conversions over a pool of 22 operands (typed variables, typed constants, untyped constants of every kind, nil); int8/uint8 carry range arithmetic (TLC 32-bit integers), int/MyInt never overflow on the pool. Statement-, call- and literal-level constructs are exercised by other checks (C05 predicates, C10 bodies, C16 histories) but their typing is not yet predicted here. Known findings are exact class-key sets per root cause (known/*.keys). Trusted: TLC, go/types (types.Eval validates Ops.tla on every point: S = T else exit 2).',
    technique="TLA+ transcription of Go's operator typing and constant folding (Ops.tla) + TLC as exhaustive evaluator with laws + one implementation test per expression point",
    design_ref="DESIGN.md section 5 C04"),
+ "C15": dict(level="model_checking",
+   text="Determinism.tla models every walk over an unordered collection (per-file import table, file table, overload tables, extension-package dependency set) as a free choice of order and compares two writers by self-composition; TLC checks OutputIndependentOfOrder with the implementation's sort flags over all collection-size vectors 0..3 (and refutes it when the dependency walk is unsorted). Each of the 256 programs is built as a real package with exactly those collection sizes 25 times in one process and once in each of two fresh processes; every written file must be byte-identical across all builds.",
+   note="Collections modelled: imports per file, files, overload families of an imported package, extension dependencies in exported signatures (sizes 0..3). Detection of an order dependence is probabilistic in the implementation (Go randomises map iteration): miss probability < 1e-4 with 3 items and 25 builds. Trusted: TLC, Go's map-iteration randomisation.",
+   technique="TLA+ self-composition over free iteration orders (TLC exhaustive) + repeated in-process and cross-process builds of every enumerated program",
+   design_ref="DESIGN.md section 5 C15"),
 }
 
 def sh(cmd):
